@@ -63,6 +63,7 @@ func (C09Mon) After(w *core.World, st *core.Step) {
 		}
 	}
 	sel := map[string]bool{}
+	optional := map[string]bool{} // the argument is a file on one side and a directory on the other: both readings accepted
 	var unknown, classes []string
 	domainOK, dotOpen := true, false
 	for _, a := range pa.Pos {
@@ -74,6 +75,9 @@ func (C09Mon) After(w *core.World, st *core.Step) {
 		cls := ""
 		if _, ok := known[cp]; ok {
 			sel[cp] = true
+			for _, p := range trackedBeneath(known, cp) {
+				optional[p] = true
+			}
 			if IsFileOnDisk(st.Pre, cp) {
 				cls = "file"
 			} else {
@@ -205,12 +209,26 @@ func (C09Mon) After(w *core.World, st *core.Step) {
 		}
 	}
 	c.Oracle("C09.staged.collateral")
+	for p := range optional {
+		if sel[p] {
+			continue
+		}
+		if got := idx1[p]; got != idx0[p] && got != H[p] {
+			w.Fail("C09.staged.collateral", "other-entry-changed", trig, "%s left %q staged as %s, neither its old entry nor HEAD's", st.String(), p, short(got))
+		}
+	}
 	for p, id := range idx0 {
+		if optional[p] {
+			continue
+		}
 		if !sel[p] && idx1[p] != id {
 			w.Fail("C09.staged.collateral", "other-entry-changed", trig, "%s changed the staged entry %q which it did not name", st.String(), p)
 		}
 	}
 	for p := range idx1 {
+		if optional[p] {
+			continue
+		}
 		if _, was := idx0[p]; !was && !sel[p] {
 			w.Fail("C09.staged.collateral", "other-entry-appeared", trig, "%s staged %q which it did not name", st.String(), p)
 		}
@@ -234,6 +252,14 @@ func runC09(c *core.Ctx) {
 		k := NewWalker(w, gen.NameOpts{Space: true, NonASCII: w.Hist%3 == 0, Meta: w.Hist%2 == 0, MaxDepth: 4, N: 7 + w.Hist%4}, wts)
 		k.Hostile = 8
 		k.MaxContent = 3000
+		if w.Hist%4 == 0 {
+			// file <-> directory replacements between HEAD, the staging area and the working tree
+			k.Swap = true
+			k.Weights["edit-swap"] = 6
+			k.keys = append(k.keys, "edit-swap")
+			sort.Strings(k.keys)
+			k.total += 6
+		}
 		k.Init()
 		for i, p := range k.Pool {
 			if i >= 6 {
@@ -255,9 +281,9 @@ func runC09(c *core.Ctx) {
 
 func init() {
 	register(&Prop{ID: "C09", Level: "exploration",
-		Rule: "seeded histories producing (HEAD snapshot, staging area, working tree) triples; restore / restore --staged with arguments that are files, existing directories, deleted files, deleted directories, unknown paths, over names that are substrings/prefixes of other tracked names or contain regexp metacharacters, with untracked files inside named directories; oracle: selected paths byte-identical to the staged blob (resp. staged entry == HEAD entry), everything else byte-identical, unknown refused; distinct = (flag, argument kind, name-relation class)",
-		Mons:  func() []core.Monitor { return []core.Monitor{C09Mon{}} },
-		Run:   runC09,
+		Rule:   "seeded histories producing (HEAD snapshot, staging area, working tree) triples; restore / restore --staged with arguments that are files, existing directories, deleted files, deleted directories, unknown paths, over names that are substrings/prefixes of other tracked names or contain regexp metacharacters, with untracked files inside named directories; oracle: selected paths byte-identical to the staged blob (resp. staged entry == HEAD entry), everything else byte-identical, unknown refused; distinct = (flag, argument kind, name-relation class)",
+		Mons:   func() []core.Monitor { return []core.Monitor{C09Mon{}} },
+		Run:    runC09,
 		Floors: []core.Floor{{Key: "C09.wt.selected", Min: 300}, {Key: "C09.staged.selected", Min: 300}},
 	})
 }
